@@ -148,10 +148,139 @@ fn check_c05(case: &Case, index: usize) -> CaseOut {
     o
 }
 
+// --- C05 through the public iterator: term programs wrapped in dfs { }
+
+fn c05_term_programs(quick: bool) -> Vec<crate::ast::Program> {
+    use crate::ast::*;
+    let q = T::V(0);
+    let r = T::V(1);
+    let vals: Vec<T> = vec![T::I(1), T::list(vec![T::I(1), T::I(2), T::I(3)]), T::I(2), T::list(vec![T::I(4)]), T::Cmp(Tag::Pair, vec![T::I(1), T::list(vec![T::I(2)])]), T::Nil];
+    let mut out = vec![];
+    let n = vals.len();
+    // disjunctions of bindings to terms of different shapes, all orders of pairs and some triples
+    for i in 0..n {
+        for j in 0..n {
+            if i == j {
+                continue;
+            }
+            out.push(Program { nq: 2, body: vec![G::Dfs(vec![G::Conde(vec![vec![G::Eq(q.clone(), vals[i].clone())], vec![G::Eq(q.clone(), vals[j].clone())]])])] });
+            out.push(Program { nq: 2, body: vec![G::Dfs(vec![G::Disj(vec![G::Eq(q.clone(), vals[i].clone()), G::Eq(q.clone(), vals[j].clone())])])] });
+            let k = (i + j) % n;
+            if !quick || (i + j) % 2 == 0 {
+                out.push(Program { nq: 2, body: vec![G::Dfs(vec![G::Conde(vec![vec![G::Eq(q.clone(), vals[i].clone())], vec![G::Eq(q.clone(), vals[j].clone())], vec![G::Eq(q.clone(), vals[k].clone())]]), G::Conde(vec![vec![G::Eq(r.clone(), vals[j].clone())], vec![G::Eq(r.clone(), vals[i].clone())]])])] });
+                out.push(Program { nq: 2, body: vec![G::Eq(r.clone(), T::I(0)), G::Dfs(vec![G::Conde(vec![vec![G::Conde(vec![vec![G::Eq(q.clone(), vals[i].clone())], vec![G::Eq(q.clone(), vals[k].clone())]])], vec![G::Eq(q.clone(), vals[j].clone())]])])] });
+            }
+        }
+    }
+    // recursion through closures: member / append over lists with elements of different shapes
+    let lists: Vec<T> = vec![
+        T::list(vec![T::I(1), T::I(2), T::I(3)]),
+        T::list(vec![T::list(vec![T::I(1), T::I(2)]), T::I(7), T::list(vec![T::I(3)])]),
+        T::list(vec![T::I(7), T::list(vec![T::I(1), T::I(2), T::I(3)]), T::I(8)]),
+    ];
+    for l in &lists {
+        out.push(Program { nq: 2, body: vec![G::Dfs(vec![G::Rel(Rel::Member, vec![q.clone(), l.clone()])])] });
+        out.push(Program { nq: 2, body: vec![G::Dfs(vec![G::Rel(Rel::Append, vec![q.clone(), r.clone(), l.clone()])])] });
+        out.push(Program { nq: 2, body: vec![G::Dfs(vec![G::Rel(Rel::Member, vec![q.clone(), l.clone()]), G::Rel(Rel::Member, vec![r.clone(), l.clone()])])] });
+    }
+    out
+}
+
+fn check_c05_terms(p: &crate::ast::Program, index: usize) -> CaseOut {
+    use crate::conv::{Builder, Dec};
+    use crate::run::{run_query, End, DE, DU};
+    crate::ev::progress("c05-e3", index, &Value::Null);
+    let mut o = CaseOut { viols: vec![], hist: vec![], steps: 0, states: 0, transitions: 0 };
+    let sig = p.to_string();
+    let mkv = |kind: &str, detail: String, site: String| Violation { kind: kind.into(), sig: sig.clone(), site, detail, family: "c05-e3".into(), index, schedule: vec![], data: Value::Null };
+    let reference: Vec<String> = match crate::refeval::reference_answers(p) {
+        Some(r) => r.iter().map(|a| format!("{:?}", crate::refm::canon_tuple(&a.tuple).iter().map(|t| t.to_string()).collect::<Vec<_>>())).collect(),
+        None => return o,
+    };
+    let nvars = crate::run::nvars_of(p.nq, &p.body);
+    let out = run_query(nvars, p, 200, 400_000);
+    o.steps += out.steps;
+    let got: Vec<String> = out.answers.iter().map(|a| format!("{:?}", a.terms.iter().map(|t| t.to_string()).collect::<Vec<_>>())).collect();
+    match &out.end {
+        End::Panic(m) => {
+            o.viols.push(mkv("panic", m.clone(), panic_site(m)));
+            return o;
+        }
+        End::Exhausted => {}
+        other => {
+            o.viols.push(mkv("no-termination", format!("{:?}", other), String::new()));
+            return o;
+        }
+    }
+    if got == reference {
+        if reference.len() >= 2 {
+            o.hist.push(("query-level-dfs-ordered-2plus-answers", 1));
+        }
+        return o;
+    }
+    // which order does the search itself (before reification) produce?
+    let state_level: Result<Vec<String>, End> = crate::run::guarded(|| {
+        let b: Builder<DU, DE> = Builder::new(nvars);
+        let goal = b.bfs(&crate::ast::G::Conj(p.body.clone()));
+        let mut solver: proto_vulcan::solver::Solver<DU, DE> = proto_vulcan::solver::Solver::new((), false);
+        let mut stream = solver.start(&goal, proto_vulcan::state::State::new(proto_vulcan::user::DefaultUser::new()));
+        let mut v = vec![];
+        while let Some(st) = solver.next(&mut stream) {
+            let mut dec: Dec<DU, DE> = Dec::new(None);
+            let terms: Vec<String> = (0..p.nq).map(|i| dec.dec(&st.smap_ref().walk_star(&b.env.var(i))).to_string()).collect();
+            v.push(format!("{:?}", terms));
+            if v.len() > 300 {
+                break;
+            }
+        }
+        v
+    });
+    let mut a = got.clone();
+    let mut b = reference.clone();
+    a.sort();
+    b.sort();
+    let kind = if a != b {
+        "answers"
+    } else if state_level.as_ref().ok() == Some(&reference) {
+        // the search yields Prolog order; the order is lost when the answers are reified
+        "dfs-order-lost-in-reification"
+    } else {
+        "order"
+    };
+    o.viols.push(mkv(kind, format!("ResultIterator yields {:?}; Prolog order is {:?}; the search before reification yields {:?}", got, reference, state_level.unwrap_or_default()), String::new()));
+    o
+}
+
 pub fn run_c05(ctx: &mut Ctx) {
     let quick = ctx.quick();
+    let progs = c05_term_programs(quick);
+    {
+        let sel: Vec<usize> = match &ctx.replay {
+            Some(r) if r.family == "c05-e3" => vec![r.index],
+            Some(_) => vec![],
+            None => (0..progs.len()).collect(),
+        };
+        let res = par_map(&sel, |_, i| check_c05_terms(&progs[*i], *i));
+        let mut nt = 0u64;
+        for r in res {
+            for (k, n) in &r.hist {
+                ctx.hist(k, *n);
+                nt += 1;
+            }
+            for v in r.viols {
+                ctx.violation(v);
+            }
+        }
+        ctx.add("evaluations", sel.len() as u64);
+        ctx.add("traces_validated_against_impl", sel.len() as u64);
+        ctx.add("distinct_nontrivial", nt);
+        ctx.hist("c05-e3:programs", sel.len() as u64);
+        if let Some(p) = progs.get(progs.len() / 2) {
+            ctx.sample(json!({"family": "c05-e3", "program": p.to_string()}));
+        }
+    }
     let cases = finite_cases(quick, if quick { 3 } else { 4 });
-    ctx.set("rule", json!("E4: every goal-tree shape up to the leaf bound over DFSConj / cond (Conde<DFSGoal>) / DFSDisj / fresh / closure, with every leaf a scripted goal (answer / lazy step scripts, three stream encodings), run DFS-typed at top level, inside dfs{} under a BFS parent and as second conjunct of a BFS conjunction; the answer SEQUENCE must equal the reference depth-first interpreter's, position by position. distinct_nontrivial = cases with >= 2 answers."));
+    ctx.set("rule", json!("E4: every goal-tree shape up to the leaf bound over DFSConj / cond (Conde<DFSGoal>) / DFSDisj / fresh / closure, with every leaf a scripted goal (answer / lazy step scripts, three stream encodings), run DFS-typed at top level, inside dfs{} under a BFS parent and as second conjunct of a BFS conjunction; the answer SEQUENCE must equal the reference depth-first interpreter's, position by position. E3 through the public iterator: dfs{} programs over cond / DFSDisj of bindings to terms of different shapes, nested cond, conjunctions of cond, and member / append (recursion through closures): the ResultIterator sequence must equal the reference interpreter's sequence. distinct_nontrivial = cases with >= 2 answers."));
     run_family(ctx, "c05-e4", &cases, &|c, i| check_c05(c, i));
     ctx.require_nonzero("dfs-ordered-2plus-answers");
 }
